@@ -115,6 +115,11 @@ def run_history(case, rng):
     for position, kind in enumerate(kinds):
         stats['runs_in_histories'] += 1
         start = rng.choice([0, 0, 5, -2, 0.5])
+        step = 0.5
+        if rng.random() < 0.08:
+            # an exact integer clock beyond float precision (nanosecond time stamps); whole delays
+            start = rng.choice([2 ** 53 + 1, 2 ** 60 + 3, 1700000000 * 10 ** 9 + 1])
+            step = 1
         n_roots = rng.randint(1, 4)
         log = []
         raised = []
@@ -128,12 +133,12 @@ def run_history(case, rng):
         falsy = rng.random() < 0.4
 
         def root(number, kind=kind, log=log, raised=raised, n_roots=n_roots,
-                 nested_log=nested_log, deep=deep, falsy=falsy):
+                 nested_log=nested_log, deep=deep, falsy=falsy, step=step):
             async def body():
                 log.append(('begin', number, time.now))
                 if number == 0 and foreign:
                     foreign_reads.extend(read_from_foreign_threads())
-                await (time + number * 0.5)
+                await (time + number * step)
                 if kind in ('nested', 'nested-fail') and number == 0:
                     before = time.now
                     inner_log = []
@@ -228,7 +233,7 @@ def run_history(case, rng):
             stats['infinite_sleepers'] = stats.get('infinite_sleepers', 0) + 1
         till = None
         if kind == 'till':
-            till = start + rng.choice([0, 0.5, 1, 1.5, 10])
+            till = start + rng.choice([0, 0.5, 1, 1.5, 10] if step != 1 else [0, 1, 2, 10])
             stats['till_runs'] += 1
         outcome = sess.run(*roots, start=start, till=till)
         for coro in roots:
@@ -279,8 +284,8 @@ def run_history(case, rng):
         if kind in ('ok', 'nested', 'nested-fail') and outcome[0] == 'ok':
             want = []
             for number in range(n_roots):
-                want += [('begin', number, start), ('mid', number, start + number * 0.5 + 1),
-                         ('end', number, start + number * 0.5 + 2)]
+                want += [('begin', number, start), ('mid', number, start + number * step + 1),
+                         ('end', number, start + number * step + 2)]
             if sorted(log) != sorted(want):
                 vio('enclosing-simulation-disturbed' if kind != 'ok' else 'wrong-trace',
                     'log %s, expected %s' % (sorted(log), sorted(want)))
